@@ -25,19 +25,47 @@ def integral_test(c, v):
 
 
 def from_f64_ok(F, m):
-    """(ok, detail, term) for <Number as From<f64>>::from"""
+    """(ok, detail, term) for <Number as From<f64>>::from: Integer(t(v) as i64) exactly under an integrality test and a
+    range guard on the same value, Float(v) otherwise -- nested `if`s or one conjunction"""
     ff = F.by_key.get("<eval_number::number::Number as std::convert::From<f64>>::from")
     if ff is None:
         return False, "From<f64> for Number not found", None
     tf = m.tb.deep_term(ff)
+    # single-use immutable bindings (`let is_integral = ..; let fits = ..;`) are part of the condition
+    items = list(tf[1:]) if isinstance(tf, tuple) and tf and tf[0] == "seq" else [tf]
+    env = {}
+    for it in items[:-1]:
+        if isinstance(it, tuple) and len(it) == 3 and it[0] == "let":
+            env[it[1]] = it[2]
+        else:
+            return False, "statement other than a binding: " + T.show(it)[:120], tf
+    from ..tables import subst_vars
+    tf = items[-1]
+    for _ in range(len(env) + 1):
+        tf = subst_vars(tf, env)
     v = ("param", T.param_ids(ff)[0][1])
     FLOATV = ("ctor", "Number::Float", v)
     e = M(("if", "?c", ("if", "?g", ("ctor", "Number::Integer", ("cast", "f64", "i64", "?t")), FLOATV), FLOATV), tf)
     if e is not None and integral_test(e["?c"], v):
         okg, why = guard_ok(e["?g"], e["?t"])
         ok_t = e["?t"] in (v, ("call", "f64::floor", v), ("call", "f64::trunc", v))
-        return okg and ok_t, why or "ok", tf
-    return False, "not the canonical integral/range decision tree: " + T.show(tf)[:200], tf
+        return okg and ok_t, why or ("converted value %s" % T.show(e["?t"])), tf
+    e2 = M(("if", "?c", ("ctor", "Number::Integer", ("cast", "f64", "i64", "?t")), FLOATV), tf)
+    if e2 is not None:
+        conj = []
+
+        def flat(c):
+            if isinstance(c, tuple) and c and c[0] == "op" and c[1] == "and":
+                flat(c[3]); flat(c[4])
+            else:
+                conj.append(c)
+        flat(e2["?c"])
+        tv = e2["?t"]
+        has_int = any(integral_test(c, v) for c in conj)
+        okg, why = guard_ok(e2["?c"], tv)
+        ok = has_int and okg and tv in (v, ("call", "f64::floor", v), ("call", "f64::trunc", v))
+        return ok, why or ("integrality test present: %s" % has_int), tf
+    return False, "not the canonical integral/range decision tree: " + T.show(tf)[:300], tf
 
 
 def main(tier):
@@ -57,36 +85,8 @@ def main(tier):
     ti = m.tb.deep_term(fi)
     e = M(("ctor", "Number::Integer", ("param", "?v")), ti)
     run.ob(e is not None, "from-i64", "C18 Number::from(i64) is Integer of the same value", fi.key, T.show(ti)[:120], sample={"fn": "From<i64>", "tree": T.show(ti)})
-    tf = m.tb.deep_term(ff)
+    ok_shape, detail, tf = from_f64_ok(F, m)
     v = ("param", T.param_ids(ff)[0][1])
-    FLOATV = ("ctor", "Number::Float", v)
-    # shape: if integral(v) { if guard(t(v)) { Integer(t(v) as i64) } else { Float(v) } } else { Float(v) }   (or a single conjunction)
-    ok_shape = False
-    detail = T.show(tf)[:400]
-    tv = None
-    e = M(("if", "?c", ("if", "?g", ("ctor", "Number::Integer", ("cast", "f64", "i64", "?t")), FLOATV), FLOATV), tf)
-    if e is not None and integral_test(e["?c"], v):
-        tv, g = e["?t"], e["?g"]
-        okg, why = guard_ok(g, tv)
-        ok_t = tv in (v, ("call", "f64::floor", v), ("call", "f64::trunc", v))
-        ok_shape = okg and ok_t
-        detail = why or ("converted value %s" % T.show(tv))
-    else:
-        e2 = M(("if", "?c", ("ctor", "Number::Integer", ("cast", "f64", "i64", "?t")), FLOATV), tf)
-        if e2 is not None:
-            conj = []
-
-            def flat(c):
-                if isinstance(c, tuple) and c and c[0] == "op" and c[1] == "and":
-                    flat(c[3]); flat(c[4])
-                else:
-                    conj.append(c)
-            flat(e2["?c"])
-            tv = e2["?t"]
-            has_int = any(integral_test(c, v) for c in conj)
-            okg, why = guard_ok(e2["?c"], tv)
-            ok_shape = has_int and okg and tv in (v, ("call", "f64::floor", v), ("call", "f64::trunc", v))
-            detail = why or ("integrality test present: %s" % has_int)
     run.ob(ok_shape, "from-f64", "C18 Number::from(f64): Integer(n) exactly when v is finite, integral and in [-2^63, 2^63), with n = v; otherwise Float(v) carrying v itself",
            "%s (%s)" % (ff.key, ff.file), detail, sample={"fn": "From<f64>", "integral_test": "v - floor(v) == 0.0 (false for NaN, +-inf)", "range": "[-2^63, 2^63)", "else": "Float(v) (identity)"})
     # Float branches carry the parameter itself (bits unchanged)
